@@ -326,6 +326,55 @@ def h_carriers(ctx):
         ign.clear_ignore_parser_cache()
 
 
+def h_config_option(ctx):
+    """--config FILE as the carrier (yaml / json, hyphen / underscore keys)."""
+    import src.linter_config.ignore as ign
+    from click.testing import CliRunner
+    from src.cli_main import cli
+    fmt = ctx.pick("file_format", ("yaml", "json", "yml"))
+    spelling = ctx.pick("spelling", ("hyphen", "underscore"))
+    also_default = ctx.flag("project_also_has_thailint_yaml")
+    d = Path(tempfile.mkdtemp(prefix="c05cfg-"))
+    try:
+        (d / ".git").mkdir()
+        (d / "src").mkdir()
+        (d / "src" / "nest.ts").write_text(triggers.T["nest.ts"][3])       # documented depth 5
+        (d / "src" / "magic.py").write_text(triggers.T["magic.py"][3])
+        (d / "skipme").mkdir()
+        (d / "skipme" / "p.py").write_text(triggers.T["printy.py"][3])
+        (d / "keep").mkdir()
+        (d / "keep" / "p.py").write_text(triggers.T["printy.py"][3])
+        mn = "magic-numbers" if spelling == "hyphen" else "magic_numbers"
+        body = {"nesting": {"max_nesting_depth": 9}, mn: {"enabled": False}, "ignore": ["skipme/"]}
+        cfgdir = d / "conf"
+        cfgdir.mkdir()
+        f = cfgdir / ("custom." + fmt)
+        if fmt == "json":
+            f.write_text(json.dumps(body))
+        else:
+            f.write_text("nesting:\n  max_nesting_depth: 9\n%s:\n  enabled: false\nignore:\n  - skipme/\n" % mn)
+        if also_default:
+            (d / ".thailint.yaml").write_text("nesting:\n  max_nesting_depth: 2\n")
+        outs = {}
+        for cmd in ("nesting", "magic-numbers", "improper-logging"):
+            ign.clear_ignore_parser_cache()
+            outs[cmd] = CliRunner().invoke(cli, ["--project-root", str(d), cmd, "--config", str(f), "--format", "json", str(d)])
+        codes = {c: r.exit_code for c, r in outs.items()}
+        ctx.cover("ran")
+        ctx.require("run-completes", all(c in (0, 1) for c in codes.values()), codes=codes, out=outs["nesting"].output[-200:])
+        if not all(c in (0, 1) for c in codes.values()):
+            return
+        docs = {c: json.loads(r.output) for c, r in outs.items()}
+        ctx.require("threshold-from-config-option-wins", len(docs["nesting"]["violations"]) == 0, got=len(docs["nesting"]["violations"]))
+        magic = [v for v in docs["magic-numbers"]["violations"] if v["file_path"].endswith("magic.py")]
+        ctx.require("enabled-false-honoured-in-config-option", not magic, spelling=spelling, fmt=fmt)
+        prints = {Path(v["file_path"]).parent.name for v in docs["improper-logging"]["violations"]}
+        ctx.require("top-level-ignore-list-honoured-in-config-option", prints == {"keep"}, got=sorted(prints))
+    finally:
+        shutil.rmtree(d, True)
+        ign.clear_ignore_parser_cache()
+
+
 ASSUMPTIONS = (
     "in-memory config dicts stand for what every file loader produces: the real _normalize_config_keys is applied to them (the YAML/JSON/TOML parsers themselves are outside the solver's reach and are covered concretely by K3)",
     "documented section names are those of each linter's documentation page",
@@ -357,5 +406,9 @@ def obligations(tier):
                       "linter_config.ignore._load_repo_ignores/_parse_config_file", "cli entry: setup_base_orchestrator / handle_linting_error"],
            bounds="forked only (the YAML/JSON/TOML parsers are C/third-party code, nothing is symbolic here): presence of each of the 3 carriers (8 subsets) x key spelling x which present carrier is malformed x {library, CLI}",
            timeout=900, workers=14, must_cover=("effective-yaml", "effective-json", "effective-pyproject", "effective-None", "malformed")),
+        Ob(name="K3b-config-option-carrier", engine="pathex", harness=h_config_option,
+           functions=["cli.utils.setup_base_orchestrator/load_config_file", "LinterConfigLoader.load", "linter commands with --config"],
+           bounds="forked (nothing symbolic): --config file format (yaml, yml, json) x key spelling x presence of a project .thailint.yaml",
+           timeout=300, workers=8, must_cover=("ran",)),
     ]
     return obs
